@@ -358,5 +358,9 @@ class StochasticAndFilterDuplicatesSearcher(StochasticSearcher):
         k = "restrict_configurations"
         if k in state:
             self._restrict_configurations = state[k]
+            if self._rc_returned_pos is None:
+                # The object may have been created without ``restrict_configurations``
+                # (see ``clone_from_state`` of subclasses)
+                self._rc_returned_pos = set()
         else:
             self._restrict_configurations = None
